@@ -29,13 +29,25 @@ def _run(m, f, off: int, w: int, value_param=None):
     sel = f"{blk}[{da}.block_offset]"
     stored: list = []
 
+    def is_sel(e) -> bool:
+        """block[<the block offset>]: written out, or through a local that holds the offset (it is the constant 0 in this run)"""
+        if not (isinstance(e, ast.Subscript) and isinstance(e.value, ast.Name) and e.value.id == blk):
+            return False
+        if ast.unparse(e) == sel:
+            return True
+        try:
+            i = run.ev.ev(e.slice)
+        except Inconclusive:
+            return False
+        return i.is_const() and i.const == 0 and not isinstance(e.slice, ast.Constant)
+
     def on_load(e, ev):
-        if isinstance(e, ast.Subscript) and ast.unparse(e) == sel:
+        if is_sel(e):
             return Form.field("word", 0, 32)
         return None
 
     def on_store(t, v, ev):
-        if isinstance(t, ast.Subscript) and ast.unparse(t) == sel:
+        if is_sel(t):
             stored.append(v)
             return True
         return False
